@@ -1,5 +1,121 @@
-(** C08 — property theorems (statements only; proofs in Proofs*.v). *)
+(** C08 — property theorems (statements only; proofs in Proofs*.v).
+
+    Vocabulary.  [represents r src l] (ProofsCore) is the simulation invariant: the
+    reader state [r] and the not yet delivered schedule [src] are consistent
+    ([inv]: the buffer array is non-empty, no empty data chunk ahead, and once [eof]
+    is set nothing is left) and [live r ++ data_of src = l], the remaining input of
+    the pure parser.  [wf_src]: no empty [Data] chunk (a read returning 0 bytes means
+    end of input).  [op_ok]: integer types have at least one bit.  The bound 2^130 on
+    the input length is the loop fuel ([Common.Iter.big_fuel]). *)
 From Coq Require Import ZArith NArith List Bool.
 Import ListNotations.
 From RlibV Require Import C08.Model C08.Spec C08.Corr.
+From RlibV Require Import C08.ProofsCore C08.ProofsLoops C08.ProofsInt C08.ProofsOps C08.ProofsSpec C08.ProofsCorr.
+From RlibV Require Import C08.Flat C08.OldVariant.
 Open Scope Z_scope.
+
+(** the initial state represents the whole input, for every capacity >= 1 *)
+Theorem c08_initial : forall (BUF : N) (src : list event),
+  (1 <= BUF)%N -> wf_src src -> represents (new_reader BUF) src (data_of src).
+Proof. exact new_reader_represents. Qed.
+
+(** simulation: one operation on a represented state returns the pure parser's value and
+    leaves a state representing the parser's remaining input; it panics exactly where
+    the parser leaves the contract *)
+Theorem c08_simulation_step : forall (o : op) (r : reader) (src : list event) (l : list byte),
+  op_ok o -> represents r src l -> Z.of_nat (length l) < 2 ^ 130 ->
+  match spec_op o l with
+  | SRet v l' => exists r' src', run_op o r src = Ret v r' src' /\ represents r' src' l'
+  | SPanic => run_op o r src = Panic
+  end.
+Proof. exact run_op_sim. Qed.
+
+(** refinement: a whole script, any capacity, any schedule = the pure parser on the bytes *)
+Theorem c08_refines_parser : forall (BUF : N) (src : list event) (ops : list op),
+  (1 <= BUF)%N -> wf_src src -> Forall op_ok ops -> Z.of_nat (length (data_of src)) < 2 ^ 130 ->
+  run BUF src ops = spec_run ops (data_of src).
+Proof. exact run_refines_parser. Qed.
+
+(** the property: results depend on the bytes alone *)
+Theorem c08_schedule_independent : forall (BUF1 BUF2 : N) (src1 src2 : list event) (ops : list op),
+  (1 <= BUF1)%N -> (1 <= BUF2)%N -> wf_src src1 -> wf_src src2 -> Forall op_ok ops ->
+  data_of src1 = data_of src2 -> Z.of_nat (length (data_of src1)) < 2 ^ 130 ->
+  run BUF1 src1 ops = run BUF2 src2 ops /\ run BUF1 src1 ops = spec_run ops (data_of src1).
+Proof. exact schedule_independent. Qed.
+
+(** the digit loop with checked arithmetic accepts every in-range decimal token: no
+    intermediate overflow, also for the minimum of a signed type (accumulated negatively) *)
+Theorem c08_parse_no_overflow : forall (t : ity) (neg : bool) (tok : list byte),
+  ity_ok t -> tok <> [] -> forallb digit tok = true ->
+  fits t (if neg then - dec_value tok else dec_value tok) = true ->
+  fold_opt (int_acc t neg) (0, false) tok = Some (if neg then - dec_value tok else dec_value tok, true).
+Proof. exact parse_no_overflow. Qed.
+
+(** ... and the integer reader as a whole returns the value of the token, or panics if the
+    token is missing, malformed or out of range *)
+Theorem c08_read_int_spec : forall (t : ity) (r : reader) (src : list event) (l : list byte),
+  ity_ok t -> represents r src l -> Z.of_nat (length l) < 2 ^ 130 ->
+  match spec_int t l with
+  | SRet v l' => exists r' src', read_int t r src = Ret v r' src' /\ represents r' src' l'
+  | SPanic => read_int t r src = Panic
+  end.
+Proof. exact read_int_sim. Qed.
+
+(** read_line = first line of the remaining bytes; and what that is: None only at end of
+    input, LF stripped, CR LF stripped, a CR not followed by LF kept, empty lines kept,
+    an unterminated last line returned *)
+Theorem c08_read_line_spec :
+  (forall (r : reader) (src : list event) (l : list byte),
+     represents r src l -> Z.of_nat (length l) < 2 ^ 130 ->
+     exists r' src', read_line r src = Ret (fst (spec_line l)) r' src' /\ represents r' src' (snd (spec_line l)))
+  /\ (forall l, fst (spec_line l) = None <-> l = [])
+  /\ (forall x rest, no_lf x -> last x 0 <> 13 -> spec_line (x ++ 10 :: rest) = (Some x, rest))
+  /\ (forall x rest, no_lf x -> spec_line (x ++ 13 :: 10 :: rest) = (Some x, rest))
+  /\ (forall x, no_lf x -> x <> [] -> spec_line x = (Some x, [])).
+Proof. exact read_line_full. Qed.
+
+(** read_lines returns all lines and consumes everything *)
+Theorem c08_read_lines_spec : forall (r : reader) (src : list event) (l : list byte),
+  represents r src l -> Z.of_nat (length l) < 2 ^ 130 ->
+  exists r' src', read_lines r src = Ret (spec_lines l) r' src' /\ represents r' src' [].
+Proof. exact read_lines_sim. Qed.
+
+(** is_eof: true iff only whitespace is left; the whitespace is consumed *)
+Theorem c08_is_eof_spec : forall (r : reader) (src : list event) (l : list byte),
+  represents r src l -> Z.of_nat (length l) < 2 ^ 130 ->
+  (exists r' src', is_eof r src = Ret (fst (spec_is_eof l)) r' src' /\ represents r' src' (snd (spec_is_eof l)))
+  /\ (fst (spec_is_eof l) = true <-> Forall (fun c => ws c = true) l)
+  /\ snd (spec_is_eof l) = drop_ws l.
+Proof. exact is_eof_full. Qed.
+
+(** correspondence cases: agreeing with the model implies satisfying the specification *)
+Theorem c08_model_implies_spec : forall c : case, in_scope c -> model_check c = true -> spec_check c = true.
+Proof. exact model_implies_spec. Qed.
+
+(** the model's reader state (consumed prefix / live part / free room) is the Rust state
+    (buf, begin, end, eof) with a flat array: refill (compaction with copy_within, the read
+    into buf[end..], eof on 0 bytes), buf[begin], begin += 1 and Reader::new commute with [abs] *)
+Theorem c08_state_is_flat_array :
+  (forall (r : reader) (src : list event),
+     flat_refill (abs r) src = (abs (fst (refill r src)), snd (refill r src)))
+  /\ (forall r : reader, at_begin r = nth_error (fbuf (abs r)) (fbegin (abs r)))
+  /\ (forall r r' : reader, advance r = Some r' ->
+        abs r' = mkFlat (fbuf (abs r)) (S (fbegin (abs r))) (fend (abs r)) (feof (abs r)))
+  /\ (forall BUF : N, abs (new_reader BUF) = mkFlat (zeros BUF) 0 0 false).
+Proof. exact (conj refill_abs (conj at_begin_abs (conj advance_abs new_reader_abs))). Qed.
+
+(** documentation of the two repaired defects, about explicitly named OLD variants only *)
+Theorem c08_old_stale_refuted :
+  exists src1 src2 : list event,
+    Forall (fun e => e <> Data []) src1 /\ Forall (fun e => e <> Data []) src2 /\
+    data_of src1 = data_of src2 /\
+    value (read_lines_old (new_reader 65536) src1) = Some [[]; [97; 98; 99]] /\
+    value (read_lines_old (new_reader 65536) src2) = Some [[]; [97; 98; 99; 13]] /\
+    value (read_lines (new_reader 65536) src1) = Some [[]; [97; 98; 99; 13]] /\
+    value (read_lines (new_reader 65536) src2) = Some [[]; [97; 98; 99; 13]].
+Proof. exact old_stale_refuted. Qed.
+
+Theorem c08_old_interrupted_refuted : forall (BUF : N) (src : list event),
+  src_read_old (post (new_reader BUF)) (Intr :: src) = None
+  /\ src_read (post (new_reader BUF)) (Intr :: src) = src_read (post (new_reader BUF)) src.
+Proof. exact old_interrupted_refuted. Qed.
